@@ -14,7 +14,8 @@ EXPLANATION = (
     "quoted formulas, not wire behaviour at the boundary values."
     " (e) A suppressed PTR takes its SRV/TXT/address additionals with it."
     " (f) Everything reachable from handle_query queues answers only through DnsOutgoing::add_answer. (g) A matched cached record always gets reset_ttl(incoming), also for a goodbye."
-    " (h) matches() compares like with like.")
+    " (h) matches() compares like with like."
+    " (i) handle_query considers every question (shared with C06l). (j) A known-answer copy that had update_ttl(now) applied is handed to the packet with write time 0: the age is taken off once.")
 UNDECIDED = ["behaviour at the boundary values on the wire (that is what F12 pins to the formula, no more)",
              "responder handling of multi-packet known-answer lists (TC bit)"]
 
